@@ -126,13 +126,14 @@ def oracle_cancel(c):
         return [c["error"]]
     v = c["variant"]
     if not c.get("aborted"):
-        why.append("cancelling the context did not abort the running %s within the patience of the harness" % v)
+        why.append("cancelling the context passed to Execute did not abort the running %s within the patience of the harness%s" % (
+            v, " (the job's request was built with http.NewRequestWithContext and a value-only context)" if v == "http-valuectx" else ""))
         return why
     if c["status"] != FAILURE:
         why.append("status %d after an aborted execution" % c["status"])
-    if v in ("function", "http") and c.get("err_class") != "canceled":
+    if v in ("function", "http", "http-valuectx") and c.get("err_class") != "canceled":
         why.append("Execute returned %r, expected the context's cancellation error" % c.get("err_class"))
-    if v == "http" and (c["code"] != -1 or c["cb_calls"] != 1):
+    if v.startswith("http") and (c["code"] != -1 or c["cb_calls"] != 1):
         why.append("after the aborted request: held code %d, callbacks %d" % (c["code"], c["cb_calls"]))
     if v == "shell" and (c["err_nil"] or c["exit"] != -1 or c["cb_calls"] != 1 or not c["stdout_begun"]):
         why.append("after the killed command: err_nil=%s exit=%d callbacks=%d stdout kept=%s" % (c["err_nil"], c["exit"], c["cb_calls"], c["stdout_begun"]))
@@ -152,6 +153,20 @@ def oracle_conc(c):
         why.append("%d callbacks for %d executions" % (c["cb_calls"], c["executions"]))
     if c.get("max_open_bodies_at_quiescence", 0) > 1:
         why.append("%d response bodies unclosed at a quiescent point" % c["max_open_bodies_at_quiescence"])
+    return why
+
+
+def oracle_overlap(c):
+    if c.get("skipped"):
+        return []
+    if c.get("error"):
+        return [c["error"]]
+    why = []
+    if not c["tuple_is_last"]:
+        why.append("two overlapping executions of one %s (%s, %s): after both returned the visible tuple is not the outcome of the execution "
+                   "that completed last (%s): %s" % (c["job"], c["order"], c["variant"], c["last"], c["detail"]))
+    if not (c["ret_a_own"] and c["ret_b_own"]):
+        why.append("an Execute call did not return its own execution's error")
     return why
 
 
@@ -183,6 +198,8 @@ def oracle(c):
         return oracle_conc(c)
     if k == "leak":
         return oracle_leak(c)
+    if k == "overlap":
+        return oracle_overlap(c)
     if k == "curl-bodies":
         n = c["handed_out"] - c["closed"]
         return ["%d response bodies unclosed after %d sequential executions" % (n, c["executions"])] if n > 1 else []
@@ -202,6 +219,7 @@ def oracle(c):
 SUBCMDS = {
     "http-synthetic": ["http", "synthetic"], "http-server": ["http", "server"], "http-transport": ["http", "transport"],
     "shell-exits": ["shell", "exits"], "shell-sizes": ["shell", "sizes"], "func": ["func"], "cancel": ["cancel"],
+    "overlap": ["overlap"],
 }
 
 
@@ -247,6 +265,8 @@ def model_mismatches(recs, scripts):
     shell = sorted({(r["exit"], r["status"], r["err_nil"]) for r in recs if r.get("kind") == "shell"})
     func = sorted({(r["fn_err"], r["status"], r["result_zero"], r["result_kept"]) for r in recs if r.get("kind") == "func" and r["variant"] == "pointer"})
     bl = lambda b: "true" if b else "false"
+    ov = sorted({(r["order"] == "ABBA", r["variant"] in ("fails:A", "fails:both"), r["variant"] in ("fails:B", "fails:both"), r["status"], r["result"])
+                 for r in recs if r.get("kind") == "overlap" and r["job"] == "func" and not r.get("skipped") and not r.get("error")})
     seqs = []
     for (cb, body, script, open_obs, code_obs, st_obs, cbn_obs) in scripts:
         seqs.append("(%s, %s, [%s], (%d%%nat, %s, %s, %d%%nat))" % (bl(cb), bl(body), "; ".join(zc(c) for c in script), open_obs, zc(code_obs), zc(st_obs), cbn_obs))
@@ -258,6 +278,7 @@ Definition curl_cases : list (Z * Z) := [%s].
 Definition shell_cases : list (Z * Z * bool) := [%s].
 Definition func_cases : list (bool * Z * bool * bool) := [%s].
 Definition seq_cases : list (bool * bool * list Z * (nat * Z * Z * nat)) := [%s].
+Definition ov_cases : list (bool * bool * bool * Z * nat) := [%s].
 Definition idx {A} (f : A -> bool) (l : list A) : list nat :=
   map fst (filter (fun p => negb (f (snd p))) (combine (seq 0 (length l)) l)).
 Definition bad_curl := idx (fun c => Z.eqb (cu_status_of_code (fst c)) (snd c)) curl_cases.
@@ -268,17 +289,20 @@ Definition bad_seq := idx (fun c => let '(cb, body, script, (o, code, st, n)) :=
    match cu_seq_model cb body script with
    | Some (o', code', st', n') => Nat.eqb o o' && Z.eqb code code' && Z.eqb st st' && Nat.eqb n n'
    | None => false end) seq_cases.
-Definition MISMATCH := Eval vm_compute in (bad_curl, bad_shell, bad_func, bad_seq).
+Definition bad_ov := idx (fun c => let '(abba, fa, fb, st, res) := c in
+   match fn_overlap_model abba fa fb with Some (st', res') => Z.eqb st st' && Nat.eqb res res' | None => false end) ov_cases.
+Definition MISMATCH := Eval vm_compute in (bad_curl, bad_shell, bad_func, bad_seq, bad_ov).
 Print MISMATCH.
 """ % ("; ".join("(%s, %s)" % (zc(a), zc(b)) for a, b in curl),
        "; ".join("(%s, %s, %s)" % (zc(a), zc(b), bl(c)) for a, b, c in shell),
        "; ".join("(%s, %s, %s, %s)" % (bl(a), zc(b), bl(c), bl(d)) for a, b, c, d in func),
-       "; ".join(seqs))
+       "; ".join(seqs),
+       "; ".join("(%s, %s, %s, %s, %d%%nat)" % (bl(a), bl(b), bl(c), zc(d), max(e, 0)) for a, b, c, d, e in ov))
     rc, out = vlib.coq_eval(PROJ, "c16_cases", v, timeout=600)
     if rc != 0:
         return None, out, 0
     flat = out.replace("\n", " ")
-    m = re.search(r"MISMATCH\s*=\s*\(\s*(\[[^\]]*\])\s*,\s*(\[[^\]]*\])\s*,\s*(\[[^\]]*\])\s*,\s*(\[[^\]]*\])\s*\)", flat)
+    m = re.search(r"MISMATCH\s*=\s*\(\s*(\[[^\]]*\])\s*,\s*(\[[^\]]*\])\s*,\s*(\[[^\]]*\])\s*,\s*(\[[^\]]*\])\s*,\s*(\[[^\]]*\])\s*\)", flat)
     if not m:
         return None, out, 0
 
@@ -296,7 +320,10 @@ Print MISMATCH.
         cb, body, script, o, code, st, n = scripts[i]
         mm.append({"what": "Coq transition system run on the same outcome script ends differently (open bodies, held code, status, callbacks)",
                    "callback": cb, "body": body, "observed": {"open_bodies": o, "code": code, "status": st, "callbacks": n}, "script_len": len(script)})
-    return mm, out, len(curl) + len(shell) + len(func) + len(scripts)
+    for i in ints(m.group(5)):
+        mm.append({"what": "Coq transition system run on the same overlapping executions shows a different (status, result)",
+                   "B_completes_first": ov[i][0], "A_fails": ov[i][1], "B_fails": ov[i][2], "observed_status": ov[i][3], "observed_result": ov[i][4]})
+    return mm, out, len(curl) + len(shell) + len(func) + len(scripts) + len(ov)
 
 
 def synthetic_scripts(recs):
@@ -388,7 +415,9 @@ def run(ctx):
                 "(1xx are informational for net/http clients: the client surfaces the final 200, the oracle uses the surfaced code); "
                 "refused / timeout / cancelled; exit codes 0..255, SIGKILL, a changing-outcome sequence on one object; output sizes "
                 "0..1 MiB on stdout, stderr, both; function results/errors for int, string, pointer; cancellation of a function, a "
-                "request in flight and `sleep 10`; 8 goroutines on one object with id-carrying outcomes (tuple read at quiescence "
+                "request in flight (request built plain / with its own value-only context) and `sleep 10`; channel-sequenced overlapping "
+                "executions of one object (A starts, B starts, B completes, A completes => tuple is A's; and the mirror) for Function and Shell, "
+                "the only feasible overlap for Curl (mutex spans Do); 8 goroutines on one object with id-carrying outcomes (tuple read at quiescence "
                 "only: getters lock separately); resource counts around 300 executions. non-trivial = distinct (job, input) cases. "
                 "Model: every distinct observed (code,status), (exit,status,err), function case and the full outcome scripts are "
                 "evaluated inside Coq (vm_compute) and compared.",
